@@ -41,6 +41,55 @@ Lemma glob_plates_sorted (d : iter_path) :
   sort_by plate_index (filter (fun _ => true) (glob_plates d)) = map (tag_plate (fst d)) (sort_dirs (snd d)).
 Proof. rewrite filter_all. unfold glob_plates. apply sort_by_plate. Qed.
 
+(* ---- the helper functions: glob, test for no match, first match ---- *)
+Lemma sfold_pure {S A : Type} (f : S -> A -> sres S) (g : S -> A -> S) :
+  (forall s a, f s a = SOk (g s a)) -> forall l s, sfold f l s = SOk (fold_left g l s).
+Proof.
+  intros H l; induction l as [|a l IH]; intros s; cbn [sfold fold_left]; [reflexivity|].
+  rewrite H. cbn [sbind]. apply IH.
+Qed.
+
+Lemma len0 {A : Type} (l : list A) : (Z.of_nat (length l) =? 0) = is_nil l.
+Proof. destruct l; [reflexivity|]. cbn [length Orchestrate.is_nil]. apply Z.eqb_neq. lia. Qed.
+
+Theorem src_get_screen_is_model : forall p : plate_path,
+  src_get_screen_from_job_output p = SOk (screen_of_path p).
+Proof.
+  intros [s d]. unfold src_get_screen_from_job_output, glob_in_plate, screen_of_path, screen_of, produced. cbn [fst snd].
+  destruct (f_advanced d), (f_training d); reflexivity.
+Qed.
+
+Theorem src_validate_is_model : forall p : plate_path,
+  src_validate_job_dir_and_return_meta p = SOk (meta_of p).
+Proof.
+  intros [s d]. unfold src_validate_job_dir_and_return_meta, glob_meta, meta_of. cbn [fst snd].
+  destruct (f_meta d); reflexivity.
+Qed.
+
+Theorem src_get_test_screen_is_model : forall (f : fs) (s : step),
+  src_get_test_screen_from_job_output (f, s) = SOk (test_screen_of f s).
+Proof.
+  intros f s. unfold src_get_test_screen_from_job_output, glob_in_job, test_screen_of, has_training, produced. cbn [fst snd].
+  destruct (get_plate f s) as [d|]; [destruct (f_training d)|]; reflexivity.
+Qed.
+
+Theorem src_get_thetas_is_model : forall (done : list action) (f : fs) (s : step),
+  src_get_theta_and_dist_chunks done (f, s) = theta_chunks f done s.
+Proof.
+  intros done f s. unfold src_get_theta_and_dist_chunks, glob_in_job, theta_chunks, has_thetas_dist, produced. cbn [fst snd].
+  destruct (get_plate f s) as [d|]; [destruct (f_thetas d), (f_dist d)|]; reflexivity.
+Qed.
+
+Theorem src_get_selected_is_model : forall (f : fs) (i : Z),
+  src_get_selected_plates (f, i) = SOk (get_selected f i).
+Proof.
+  intros f i. unfold src_get_selected_plates, glob_selected, get_selected. cbn [fst snd].
+  rewrite (sfold_pure _ (fun o x => o ++ [x])) by reflexivity. cbn [sbind].
+  assert (E : forall l acc, fold_left (fun (o : list Z) x => o ++ [x]) l acc = acc ++ l).
+  { induction l as [|a l IH]; intros acc; cbn [fold_left]; [now rewrite app_nil_r|]. rewrite IH, <- app_assoc. reflexivity. }
+  rewrite E. cbn [app]. rewrite len0. destruct (selected_plates f i); reflexivity.
+Qed.
+
 (* ---- the loops of examine ---- *)
 (* the translation's loop state against the model's exst: the three Optionals are None together; once the metadata of a
    completed step has been seen, all of them and the leaked loop variable plate_dir are what the model records *)
@@ -120,6 +169,7 @@ Proof.
     match goal with |- sbind ?X _ = sbind ?Y _ => replace X with Y end.
     - match goal with |- sbind ?Y _ = _ => destruct Y as [[[[pd' cp'] ci'] m']|w s|d w] end; reflexivity.
     - apply sfold_ext. intros [[[a b] c] d] [idx q]. unfold inner_body. cbn [fst snd].
+      rewrite !src_validate_is_model. cbn [sbind].
       destruct (is_none (meta_of q)); [reflexivity|]. destruct (negb (plate_index q =? idx)); reflexivity. }
   assert (R0 : xrel None ((0, 0), empty_pdir) None None exst0).
   { split; [reflexivity|]. intros v Hv. discriminate Hv. }
@@ -128,7 +178,7 @@ Proof.
   - destruct H as (cp & pd & ci & m & E & R1 & R2). rewrite E. cbn [sbind xbind].
     destruct m as [v|]; rewrite <- R1; cbn [is_none]; [|reflexivity].
     destruct (R2 v eq_refl) as (Hc & Hi & Hl). subst cp ci. rewrite Hl. cbn [sunwrap sbind].
-    unfold screen_of_path.
+    rewrite src_get_screen_is_model. unfold screen_of_path.
     destruct (x_plate st >=? bs - 1); cbn [sbind sres_of_xres]; reflexivity.
   - rewrite H. reflexivity.
 Qed.
@@ -237,52 +287,38 @@ Proof.
   now rewrite get_selected_list.
 Qed.
 
+Lemma test_screen_after f i j :
+  (i =? 0) && (j =? 0) = false ->
+  test_screen_of (tree_after f [ARmTree (i, j); AMkIter i; AMkPlate (i, j)]) (0, 0) = test_screen_of f (0, 0).
+Proof.
+  intros E0.
+  assert (N : (0, 0) <> (i, j)) by (intros E; injection E as E1 E2; subst i j; discriminate E0).
+  pose proof (get_plate_after f (i, j) (0, 0) N) as H. cbn [fst] in H.
+  unfold test_screen_of, has_training. now rewrite H.
+Qed.
+
+(* the part of run_next_retrospective_step after the early `return False` (the translation has it twice: once after
+   the test of the metadata, once where there is no metadata) *)
+Local Ltac retro_tail f i j scr :=
+  rewrite src_get_selected_is_model; cbn [sbind app fst];
+  destruct ((i =? 0) && (j =? 0)) eqn:E0; [reflexivity|];
+  pose proof (test_screen_after f i j E0) as Ht;
+  destruct (j =? 0) eqn:Ej;
+  [ rewrite src_get_test_screen_is_model; cbn [sbind];
+    rewrite Ht; unfold test_screen_of;
+    destruct (has_training f (0, 0)); cbn [is_none]; [destruct scr|]; reflexivity
+  | rewrite src_get_thetas_is_model, (next_step_tail f i j scr Ej); unfold next_action;
+    destruct (has_thetas_dist f (i, 0)); [destruct scr|]; reflexivity ].
+
 Theorem src_run_next_retro_is_model : forall (f : fs) (bs : Z),
   src_run_next_retrospective_step f SInput bs = result_of_plan Retro bs (plan_of Retro true bs f).
 Proof.
   intros f bs. unfold src_run_next_retrospective_step, plan_of. cbn [tree_after fold_left].
   rewrite src_examine_is_model.
   destruct (examine true bs f) as [[[[i j] meta] scr]|w s]; cbn [sres_of_xres sbind result_of_plan]; [|reflexivity].
-  assert (Tail :
-    (dos acts <- (if (i =? 0) && (j =? 0)
-                  then dos a <- launch_cmd (([] ++ [ARmTree (i, j)]) ++ [AMkIter (fst (i, j)); AMkPlate (i, j)]) (i, j) (Some (LInit SInput)); SOk a
-                  else dos a <- (if j =? 0
-                                 then if is_none (test_screen_of (tree_after f (([] ++ [ARmTree (i, j)]) ++ [AMkIter (fst (i, j)); AMkPlate (i, j)])) (0, 0))
-                                      then SRaised (([] ++ [ARmTree (i, j)]) ++ [AMkIter (fst (i, j)); AMkPlate (i, j)]) 1
-                                      else dos a <- launch_cmd (([] ++ [ARmTree (i, j)]) ++ [AMkIter (fst (i, j)); AMkPlate (i, j)]) (i, j)
-                                                      (first_cmd scr (test_screen_of (tree_after f (([] ++ [ARmTree (i, j)]) ++ [AMkIter (fst (i, j)); AMkPlate (i, j)])) (0, 0)));
-                                           SOk a
-                                 else dos r <- theta_chunks (tree_after f (([] ++ [ARmTree (i, j)]) ++ [AMkIter (fst (i, j)); AMkPlate (i, j)]))
-                                                 (([] ++ [ARmTree (i, j)]) ++ [AMkIter (fst (i, j)); AMkPlate (i, j)]) (i, 0);
-                                      dos a <- launch_cmd (([] ++ [ARmTree (i, j)]) ++ [AMkIter (fst (i, j)); AMkPlate (i, j)]) (i, j)
-                                                 (next_cmd scr r (get_selected f i));
-                                      SOk a);
-                       SOk a);
-     SOk (true, acts))
-    = result_of_plan Retro bs
-        (if (i =? 0) && (j =? 0) then PActs ([ARmTree (i, j); AMkIter i; AMkPlate (i, j)] ++ [ALaunch (i, j) (LInit SInput)])
-         else if j =? 0
-              then if has_training f (0, 0)
-                   then match scr with
-                        | Some sp => PActs ([ARmTree (i, j); AMkIter i; AMkPlate (i, j)] ++ [ALaunch (i, j) (LFirst sp (SFile (0, 0) KTraining))])
-                        | None => PActs ([ARmTree (i, j); AMkIter i; AMkPlate (i, j)] ++ [AFail 9])
-                        end
-                   else PActs ([ARmTree (i, j); AMkIter i; AMkPlate (i, j)] ++ [AFail 1])
-              else PActs ([ARmTree (i, j); AMkIter i; AMkPlate (i, j)] ++ [next_action f i j scr]))).
-  { cbn [app fst].
-    destruct ((i =? 0) && (j =? 0)) eqn:E0; [reflexivity|].
-    destruct (j =? 0) eqn:Ej.
-    - assert (N : (0, 0) <> (i, j)) by (intros E; injection E as E1 E2; subst i j; discriminate E0).
-      pose proof (get_plate_after f (i, j) (0, 0) N) as H. cbn [fst] in H.
-      unfold test_screen_of, has_training. rewrite H.
-      destruct (match get_plate f (0, 0) with Some d => match f_training d with Some _ => true | None => false end | None => false end);
-        cbn [is_none]; [|reflexivity].
-      destruct scr; reflexivity.
-    - rewrite (next_step_tail f i j scr Ej). unfold next_action.
-      destruct (has_thetas_dist f (i, 0)); [destruct scr|]; reflexivity. }
   destruct meta as [m|]; cbn [is_some sunwrap sbind].
-  - destruct (m <=? 0); [reflexivity | exact Tail].
-  - exact Tail.
+  - destruct (m <=? 0); [reflexivity|]. retro_tail f i j scr.
+  - retro_tail f i j scr.
 Qed.
 
 Theorem src_run_next_prosp_is_model : forall (f : fs) (bs : Z),
@@ -291,9 +327,9 @@ Proof.
   intros f bs. unfold src_run_next_prospective_step, plan_of. cbn [tree_after fold_left].
   rewrite src_examine_is_model.
   destruct (examine true bs f) as [[[[i j] meta] scr]|w s]; cbn [sres_of_xres sbind result_of_plan]; [|reflexivity].
-  cbn [app fst].
+  rewrite src_get_selected_is_model. cbn [sbind app fst].
   destruct (j =? 0) eqn:Ej; [reflexivity|].
-  rewrite (next_step_tail f i j (Some SInput) Ej). unfold next_action.
+  rewrite src_get_thetas_is_model, (next_step_tail f i j (Some SInput) Ej). unfold next_action.
   destruct (has_thetas_dist f (i, 0)); reflexivity.
 Qed.
 
